@@ -45,6 +45,9 @@ func (w *wbuild) setupFaults(m *Machine) {
 	fs.signal = c.Choose(3, "faultkind:signal") == 2
 	fs.damage = c.Choose(3, "faultkind:cache-damage") == 2
 	switch w.focus {
+	case "sweep":
+		fs.kinds = map[string]bool{}
+		fs.crash, fs.signal, fs.damage = false, false, false
 	case "signal":
 		fs.signal, fs.crash = true, false
 		if c.Choose(2, "signal-only") == 1 {
